@@ -72,6 +72,22 @@ def check_interval_view(ctx, A, B, blocks, strand, cs, ce, g, what, cst="+"):
     back = B.lift_over_to_first_ancestor_of_type("chromosome")
     ctx.eq(what + ":lifted_back", rm.loc_positions(back), inside)
     ctx.eq(what + ":chunk_relative_size", B.chunk_relative_size, len(inside))
+    # every chunk-relative accessor describes that same restricted location
+    cpos = [dn(p) for p in inside]
+    ctx.eq(what + ":chunk_relative_start_end", (B.chunk_relative_start, B.chunk_relative_end), (min(cpos), max(cpos) + 1))
+    ctx.eq(what + ":chunk_relative_strand_accessor", B.chunk_relative_strand.to_symbol(), rm.compose(strand, cst))
+    ctx.eq(what + ":chunk_relative_blocks", sorted(p_ for b_ in B.chunk_relative_blocks for p_ in range(b_.start, b_.end)), sorted(cpos))
+    sp_ = B.chunk_relative_span
+    ctx.eq(what + ":chunk_relative_span", (sp_.start, sp_.end), (min(cpos), max(cpos) + 1))
+    gl = B.chunk_relative_gaps_location
+    ctx.eq(what + ":chunk_relative_gaps", sorted(rm.posset(rm.loc_blocks(gl))) if not gl.is_empty else [], sorted(set(range(min(cpos), max(cpos) + 1)) - set(cpos)))
+    for i_, c_ in enumerate(cpos):
+        ctx.eq(what + ":chunk_relative_pos_to_feature", _outcome(B.chunk_relative_pos_to_feature, c_), ["value", i_], extra=c_)
+        ctx.eq(what + ":feature_pos_to_chunk_relative", _outcome(B.feature_pos_to_chunk_relative, i_), ["value", c_], extra=i_)
+    whole = _outcome(B.chunk_relative_interval_to_feature, min(cpos), max(cpos) + 1, STRAND[rm.compose(strand, cst)])
+    ctx.eq(what + ":chunk_relative_interval_to_feature", [whole[0], sorted(whole[1]) if whole[0] == "loc" else whole[1]], ["loc", list(range(len(cpos)))])
+    back_ = _outcome(B.feature_interval_to_chunk_relative, 0, len(cpos), STRAND["+"])
+    ctx.eq(what + ":feature_interval_to_chunk_relative", back_[:2], ["loc", cpos])
     # (b2) the chunk-relative dictionary form lists the chunk-relative blocks
     try:
         dr = B.to_dict(chromosome_relative_coordinates=False)
